@@ -66,10 +66,10 @@ def step (st : St) (args : List String) : St × String :=
       | (d, .ok k) => ({ st with dir := d }, s!"ok {k.bufused bl} {bytesToHex (k.written ck)}")
     | _, _ => (st, "bad-op")
   -- reference file system
-  | ["f.init", sn] =>
-    match parseBool sn with
-    | some sn => ({ st with fs := RefFS.FS.init sn }, "ok")
-    | none => (st, "bad-op")
+  | ["f.init", sn, bn] =>
+    match parseBool sn, parseBool bn with
+    | some sn, some bn => ({ st with fs := RefFS.FS.init sn bn }, "ok")
+    | _, _ => (st, "bad-op")
   | ["f.open", dfd, p, cr, di, ex, tr, ap, rr, rw] =>
     match parseInt dfd, parseBool cr, parseBool di, parseBool ex, parseBool tr, parseBool ap, parseBool rr, parseBool rw with
     | some dfd, some cr, some di, some ex, some tr, some ap, some rr, some rw =>
